@@ -1,5 +1,5 @@
 (* C07 (RTPS part): the cost output (bytes copied + loop iterations + bytes allocated) of the
-   decoder is linear in the input length outside the over-read and rescan classes. *)
+   decoder is linear in the input length. *)
 From DustDDS Require Import Base.Machine Base.Bytes Wire.WireModel Wire.WireProofs Wire.WireTotalProofs
   Wire.WireMemProofs.
 Open Scope Z_scope.
@@ -71,6 +71,7 @@ Lemma costs_fnset : forall le, costs (read_fnset le) 1321.
 Proof.
   intros; unfold read_fnset. apply (costs_bind _ _ _ _ 4 1317); [apply costs_u32|lia|intros base].
   apply (costs_bind _ _ _ _ 4 1313); [apply costs_u32|lia|intros nb].
+  destruct (Z.gtb_spec nb 256); [eapply costs_weaken; [apply costs_perr|lia]|].
   apply (costs_bind _ _ _ _ 32 1281); [apply costs_bitmap|lia|intros ws].
   apply (costs_bind _ _ _ _ 1281 0); [|lia|intros ?].
   - eapply costs_weaken; [apply costs_ptick|]; unfold FNSET_CAP; lia.
@@ -92,15 +93,16 @@ Proof.
   - lia.
 Qed.
 
-Lemma locator_list_cost : forall le s,
-  0 <= snd (read_locator_list le s) <= 4 + 49 * Z.max 0 (dec_int le (firstn 4 s)).
+Lemma locator_list_cost : forall le s, 0 <= snd (read_locator_list le s) <= 53 + 3 * len s.
 Proof.
   intros le s. unfold read_locator_list, pbind.
-  pose proof (costs_u32 le s) as C1.
-  destruct (read_u32 le s) as [[[n s']|e|x] c] eqn:E; cbn [snd] in *; try lia.
-  assert (En : n = dec_int le (firstn 4 s)) by (eapply read_u32_value; rewrite E; reflexivity).
-  pose proof (costs_locs le (Z.to_nat (Z.min n (len s' / 24 + 1))) s') as C2.
-  destruct (read_locs le _ s') as [r c']; cbn [snd] in *. rewrite <- En. lia.
+  pose proof (costs_u32 le s) as C1. pose proof (len_nonneg _ s) as Hl.
+  pose proof (consumes_read_u32 le s) as CU.
+  destruct (read_u32 le s) as [[[n s']|e|x] c]; cbn [fst snd] in *; try lia.
+  destruct (CU n s' eq_refl) as [-> L4].
+  pose proof (costs_locs le (Z.to_nat (Z.min n (len (skipn 4 s) / 24 + 1))) (skipn 4 s)) as C2.
+  pose proof (len_skipn_le _ 4%nat s). pose proof (len_nonneg _ (skipn 4 s)).
+  destruct (read_locs le _ (skipn 4 s)) as [r c']; cbn [snd] in *. lia.
 Qed.
 
 (* ------------------------------------------------------------------- parameters *)
@@ -195,66 +197,31 @@ Proof.
   - cbn [snd] in Hc. unfold ARC_HDR in *. destruct dk; lia.
 Qed.
 
-Lemma data_head_o2q : forall le data o2q rid wid sn s1, bytes_ok data ->
-  fst ((_ <~ read_u16 le;; o <~ read_u16 le;; rid <~ read_entity_id;; wid <~ read_entity_id;;
-        sn <~ read_sn le;; pret (o + 4, rid, wid, sn)) data) = Ok (o2q, rid, wid, sn, s1) -> 4 <= o2q.
+Lemma data_cost : forall fl sublen data c, c = snd (parse_data fl sublen data) -> 0 <= c <= 40 + 13 * len data.
 Proof.
-  intros le data o2q rid wid sn s1 Hb F0.
-  apply pbind_inv_ok in F0 as (x & t1 & H1 & F0). apply consumes_read_u16 in H1 as [-> _].
-  apply pbind_inv_ok in F0 as (o & t2 & H2 & F0). apply read_u16_nonneg in H2; [|apply bytes_ok_skipn; exact Hb].
-  apply pbind_inv_ok in F0 as (a & t3 & _ & F0). apply pbind_inv_ok in F0 as (b & t4 & _ & F0).
-  apply pbind_inv_ok in F0 as (c & t5 & _ & F0). apply pret_ok in F0 as [F0 _]. inversion F0; subst. lia.
-Qed.
-
-Lemma data_cost : forall fl sublen data c, bytes_ok data -> 0 <= sublen ->
-  c = snd (parse_data fl sublen data) ->
-  0 <= c <= 40 + 13 * (if sublen =? 0 then len data else sublen).
-Proof.
-  intros fl sublen data c Hb Hs0 Hc. unfold parse_data in Hc.
-  set (dk := flag fl 2 || flag fl 3) in *. clearbody dk. rewrite shorter_spec in Hc.
-  set (endp := if sublen =? 0 then len data else sublen) in *.
-  assert (He : 0 <= endp) by (unfold endp; destruct (sublen =? 0); [apply len_nonneg|lia]).
-  destruct (Z.ltb_spec (len data) sublen) as [L|L]; [cbn [snd] in Hc; lia|].
-  pose proof (data_head_o2q (is_le fl) data) as Ho.
+  intros fl sublen data c Hc. unfold parse_data in Hc. pose proof (len_nonneg _ data) as Hl.
+  set (dk := flag fl 2 || flag fl 3) in *. clearbody dk.
+  destruct (shorter data sublen); [cbn [snd] in Hc; lia|].
   assert (C0 : 0 <= snd ((_ <~ read_u16 (is_le fl);; o <~ read_u16 (is_le fl);; rid <~ read_entity_id;; wid <~ read_entity_id;;
                           sn <~ read_sn (is_le fl);; pret (o + 4, rid, wid, sn)) data) <= 20)
     by (match goal with |- 0 <= snd (?p ?v) <= _ => eassert (C : costs p _) by costs_auto; specialize (C v); lia end).
   destruct ((_ <~ read_u16 (is_le fl);; o <~ read_u16 (is_le fl);; rid <~ read_entity_id;; wid <~ read_entity_id;;
              sn <~ read_sn (is_le fl);; pret (o + 4, rid, wid, sn)) data) as [[[[[[o2q rid] wid] sn] s1]|e|x] c0];
     cbn [fst snd] in *; try lia.
-  specialize (Ho o2q rid wid sn s1 Hb eq_refl). cbv zeta in Hc.
-  destruct (Z.ltb_spec endp o2q) as [L2|L2]; [cbn [snd] in Hc; lia|].
-  pose proof (region_len data endp o2q Ho He) as Hr.
+  cbv zeta in Hc. set (endp := if sublen =? 0 then len data else sublen) in *.
+  destruct (endp <? o2q); [cbn [snd] in Hc; lia|].
+  pose proof (region_len data (Z.to_nat (endp - o2q)) (Z.to_nat o2q)) as Hr.
   set (region := firstn (Z.to_nat (endp - o2q)) (skipn (Z.to_nat o2q) data)) in *. clearbody region.
   pose proof (data_tail_cost (flag fl 1) dk (is_le fl) region) as T.
   destruct (if flag fl 1 then read_param_list (is_le fl) region else (Ok ([], region), 0)) as [[[qos rest]|e|x] c'];
     cbn [snd] in *; specialize (T _ eq_refl); lia.
 Qed.
 
-Lemma data_frag_head_o2q : forall le data o2q rid wid sn fs fc fz ds s1, bytes_ok data ->
-  fst ((_ <~ read_u16 le;; o <~ read_u16 le;; rid <~ read_entity_id;; wid <~ read_entity_id;;
-        sn <~ read_sn le;; fs <~ read_u32 le;; fc <~ read_u16 le;; fz <~ read_u16 le;; ds <~ read_u32 le;;
-        pret (o + 4, rid, wid, sn, fs, fc, fz, ds)) data) = Ok (o2q, rid, wid, sn, fs, fc, fz, ds, s1) -> 4 <= o2q.
+Lemma data_frag_cost : forall fl sublen data c, c = snd (parse_data_frag fl sublen data) -> 0 <= c <= 52 + 13 * len data.
 Proof.
-  intros le data o2q rid wid sn fs fc fz ds s1 Hb F0.
-  apply pbind_inv_ok in F0 as (x & t1 & H1 & F0). apply consumes_read_u16 in H1 as [-> _].
-  apply pbind_inv_ok in F0 as (o & t2 & H2 & F0). apply read_u16_nonneg in H2; [|apply bytes_ok_skipn; exact Hb].
-  apply pbind_inv_ok in F0 as (a & t3 & _ & F0). apply pbind_inv_ok in F0 as (b & t4 & _ & F0).
-  apply pbind_inv_ok in F0 as (c & t5 & _ & F0). apply pbind_inv_ok in F0 as (d & t6 & _ & F0).
-  apply pbind_inv_ok in F0 as (g & t7 & _ & F0). apply pbind_inv_ok in F0 as (i & t8 & _ & F0).
-  apply pbind_inv_ok in F0 as (j & t9 & _ & F0). apply pret_ok in F0 as [F0 _]. inversion F0; subst. lia.
-Qed.
-
-Lemma data_frag_cost : forall fl sublen data c, bytes_ok data -> 0 <= sublen ->
-  c = snd (parse_data_frag fl sublen data) ->
-  0 <= c <= 52 + 13 * (if sublen =? 0 then len data else sublen).
-Proof.
-  intros fl sublen data c Hb Hs0 Hc. unfold parse_data_frag in Hc. rewrite !shorter_spec in Hc.
-  set (endp := if sublen =? 0 then len data else sublen) in *.
-  assert (He : 0 <= endp) by (unfold endp; destruct (sublen =? 0); [apply len_nonneg|lia]).
-  destruct (Z.ltb_spec (len data) sublen) as [L|L]; [cbn [snd] in Hc; lia|].
-  destruct (Z.ltb_spec (len data) 32) as [L3|L3]; [cbn [snd] in Hc; lia|].
-  pose proof (data_frag_head_o2q (is_le fl) data) as Ho.
+  intros fl sublen data c Hc. unfold parse_data_frag in Hc. pose proof (len_nonneg _ data) as Hl.
+  destruct (shorter data sublen); [cbn [snd] in Hc; lia|].
+  destruct (shorter data 32); [cbn [snd] in Hc; lia|].
   assert (C0 : 0 <= snd ((_ <~ read_u16 (is_le fl);; o <~ read_u16 (is_le fl);; rid <~ read_entity_id;; wid <~ read_entity_id;;
                           sn <~ read_sn (is_le fl);; fs <~ read_u32 (is_le fl);; fc <~ read_u16 (is_le fl);;
                           fz <~ read_u16 (is_le fl);; ds <~ read_u32 (is_le fl);;
@@ -265,9 +232,9 @@ Proof.
              fz <~ read_u16 (is_le fl);; ds <~ read_u32 (is_le fl);;
              pret (o + 4, rid, wid, sn, fs, fc, fz, ds)) data) as [[[[[[[[[[o2q rid] wid] sn] fs] fc] fz] ds] s1]|e|x] c0];
     cbn [fst snd] in *; try lia.
-  specialize (Ho o2q rid wid sn fs fc fz ds s1 Hb eq_refl). cbv zeta in Hc.
-  destruct (Z.ltb_spec endp o2q) as [L2|L2]; [cbn [snd] in Hc; lia|].
-  pose proof (region_len data endp o2q Ho He) as Hr.
+  cbv zeta in Hc. set (endp := if sublen =? 0 then len data else sublen) in *.
+  destruct (endp <? o2q); [cbn [snd] in Hc; lia|].
+  pose proof (region_len data (Z.to_nat (endp - o2q)) (Z.to_nat o2q)) as Hr.
   set (region := firstn (Z.to_nat (endp - o2q)) (skipn (Z.to_nat o2q) data)) in *. clearbody region.
   pose proof (data_tail_cost (flag fl 1) true (is_le fl) region) as T.
   destruct (if flag fl 1 then read_param_list (is_le fl) region else (Ok ([], region), 0)) as [[[qos rest]|e|x] c'];
@@ -275,85 +242,33 @@ Proof.
 Qed.
 
 (* ------------------------------------------------------------------ INFO_REPLY *)
-Lemma locator_list_cost' : forall le s,
-  0 <= snd (read_locator_list le s) <= (if len s <? 4 then 0 else 4 + 49 * Z.max 0 (dec_int le (firstn 4 s))).
+Lemma info_reply_cost : forall fl v c, c = snd (parse_info_reply fl v) -> 0 <= c <= 106 + 6 * len v.
 Proof.
-  intros le s. destruct (Z.ltb_spec (len s) 4) as [L|L]; [|apply locator_list_cost].
-  unfold read_locator_list, pbind, read_u32, pbind, read_n. rewrite shorter_spec.
-  destruct (Z.ltb_spec (len s) (Z.of_nat 4)); [cbn [snd]; lia|lia].
-Qed.
-
-Lemma info_reply_cost : forall fl sublen v c, bytes_ok v -> 0 <= sublen ->
-  c = snd (parse_info_reply fl v) ->
-  locs_overread (is_le fl) (flag fl 1) sublen v = false -> 0 <= c <= 8 + 6 * sublen.
-Proof.
-  intros fl sublen v c Hb Hs Hc Ho. unfold parse_info_reply in Hc. rewrite run_snd in Hc.
-  unfold pbind at 1 in Hc.
-  pose proof (locator_list_cost' (is_le fl) v) as C1.
+  intros fl v c Hc. unfold parse_info_reply in Hc. rewrite run_snd in Hc.
+  unfold pbind at 1 in Hc. pose proof (len_nonneg _ v) as Hl.
+  pose proof (locator_list_cost (is_le fl) v) as C1.
   pose proof (read_locator_list_ok (is_le fl) v) as O1.
-  unfold locs_overread in Ho. rewrite !shorter_spec in Ho.
-  destruct (Z.ltb_spec (len v) 4) as [L|L].
-  { destruct (read_locator_list (is_le fl) v) as [[[u s1]|e|x] c1]; cbn [fst snd] in *; try lia.
-    all: specialize (O1 u s1 Hb eq_refl); cbv zeta in O1; lia. }
-  destruct (Z.ltb_spec sublen (24 * dec_int (is_le fl) (firstn 4 v))) as [|L2]; [discriminate|].
-  assert (Hn1 : 0 <= dec_int (is_le fl) (firstn 4 v)) by (apply dec_int_nonneg, bytes_ok_firstn, Hb).
   destruct (read_locator_list (is_le fl) v) as [[[u s1]|e|x] c1]; cbn [fst snd] in *; try lia.
-  specialize (O1 u s1 Hb eq_refl). cbv zeta in O1. destruct O1 as (_ & Es1 & _ & _).
+  specialize (O1 u s1 eq_refl). pose proof (len_nonneg _ u). pose proof (len_nonneg _ s1).
   unfold pbind at 1 in Hc.
-  destruct (flag fl 1); cbn [negb] in Ho.
-  - rewrite <- Es1 in Ho.
-    pose proof (locator_list_cost' (is_le fl) s1) as C2.
-    assert (Hn2 : 0 <= dec_int (is_le fl) (firstn 4 s1)).
-    { apply dec_int_nonneg, bytes_ok_firstn. subst s1. apply bytes_ok_skipn, Hb. }
-    destruct (Z.ltb_spec (len s1) 4) as [L3|L3].
-    + destruct (read_locator_list (is_le fl) s1) as [[[m s2]|e|x] c2]; cbn [fst snd pret] in *; lia.
-    + apply Z.ltb_ge in Ho.
-      destruct (read_locator_list (is_le fl) s1) as [[[m s2]|e|x] c2]; cbn [fst snd pret] in *; lia.
+  destruct (flag fl 1).
+  - pose proof (locator_list_cost (is_le fl) s1) as C2.
+    destruct (read_locator_list (is_le fl) s1) as [[[m s2]|e|x] c2]; cbn [fst snd pret] in *; lia.
   - cbn [pret snd] in Hc. lia.
 Qed.
 
 (* ------------------------------------------------------------------ one submessage *)
-Definition rescan_bad (x : Z * Z * Z * list Z) : bool :=
-  match x with (id, fl, sublen, body) =>
-    if ((id =? ID_DATA) || (id =? ID_DATA_FRAG)) && (sublen =? 0)
-    then negb (is_ok (fst (parse_sub id fl sublen body))) else false end.
-
-Definition consumed_of (r : res psub) (sublen : Z) (v : list Z) : Z :=
-  match r with
-  | Ok sm => if (sublen =? 0) && is_data sm then len v else sublen
-  | _ => sublen
-  end.
-
-Lemma parse_sub_cost : forall id fl sublen v c, bytes_ok v -> 0 <= sublen <= len v ->
-  c = snd (parse_sub id fl sublen v) ->
-  over_bad (id, fl, sublen, v) = false -> rescan_bad (id, fl, sublen, v) = false ->
-  0 <= c <= 1341 + 13 * consumed_of (fst (parse_sub id fl sublen v)) sublen v.
+Lemma parse_sub_cost : forall id fl sublen v c, c = snd (parse_sub id fl sublen v) -> 0 <= c <= 1341 + 13 * len v.
 Proof.
-  intros id fl sublen v c Hb Hs Hc Ho Hr. unfold over_bad in Ho. unfold rescan_bad in Hr.
-  assert (Hcons : sublen <= consumed_of (fst (parse_sub id fl sublen v)) sublen v).
-  { unfold consumed_of. destruct (fst (parse_sub id fl sublen v)); try lia.
-    destruct ((sublen =? 0) && is_data a); lia. }
-  unfold parse_sub in *.
+  intros id fl sublen v c Hc. unfold parse_sub in Hc. pose proof (len_nonneg _ v) as Hl.
   destruct (id =? ID_ACKNACK); [pose proof (acknack_cost fl v); lia|].
-  destruct (id =? ID_DATA).
-  { cbn [orb andb] in Hr.
-    pose proof (data_cost fl sublen v c Hb ltac:(lia) Hc) as C. pose proof (data_mem fl sublen v) as M.
-    unfold consumed_of in *. destruct (fst (parse_data fl sublen v)) as [sm|e|x] eqn:E.
-    - destruct (M sm Hb ltac:(lia) eq_refl) as [M1 _]. rewrite M1, andb_true_r. lia.
-    - cbn [is_ok negb] in Hr. destruct (sublen =? 0); [discriminate|lia].
-    - cbn [is_ok negb] in Hr. destruct (sublen =? 0); [discriminate|lia]. }
-  destruct (id =? ID_DATA_FRAG).
-  { cbn [orb andb] in Hr.
-    pose proof (data_frag_cost fl sublen v c Hb ltac:(lia) Hc) as C. pose proof (data_frag_mem fl sublen v) as M.
-    unfold consumed_of in *. destruct (fst (parse_data_frag fl sublen v)) as [sm|e|x] eqn:E.
-    - destruct (M sm Hb ltac:(lia) eq_refl) as [M1 _]. rewrite M1, andb_true_r. lia.
-    - cbn [is_ok negb] in Hr. destruct (sublen =? 0); [discriminate|lia].
-    - cbn [is_ok negb] in Hr. destruct (sublen =? 0); [discriminate|lia]. }
+  destruct (id =? ID_DATA); [pose proof (data_cost fl sublen v c Hc); lia|].
+  destruct (id =? ID_DATA_FRAG); [pose proof (data_frag_cost fl sublen v c Hc); lia|].
   destruct (id =? ID_GAP); [pose proof (gap_cost fl v); lia|].
   destruct (id =? ID_HEARTBEAT); [pose proof (heartbeat_cost fl v); lia|].
   destruct (id =? ID_HEARTBEAT_FRAG); [pose proof (heartbeat_frag_cost fl v); lia|].
   destruct (id =? ID_INFO_DST); [pose proof (info_dst_cost fl v); lia|].
-  destruct (id =? ID_INFO_REPLY); [pose proof (info_reply_cost fl sublen v c Hb ltac:(lia) Hc Ho); lia|].
+  destruct (id =? ID_INFO_REPLY); [pose proof (info_reply_cost fl v c Hc); lia|].
   destruct (id =? ID_INFO_SRC); [pose proof (info_src_cost fl v); lia|].
   destruct (id =? ID_INFO_TS); [pose proof (info_ts_cost fl v); lia|].
   destruct (id =? ID_NACK_FRAG); [pose proof (nack_frag_cost fl v); lia|].
@@ -361,48 +276,33 @@ Proof.
 Qed.
 
 (* ----------------------------------------------------------------------- the loop *)
-Lemma sub_loop_cost : forall fuel v c, bytes_ok v -> c = snd (sub_loop fuel v) ->
-  existsb over_bad (visits fuel v) = false -> existsb rescan_bad (visits fuel v) = false ->
-  0 <= c <= 359 * len v.
+Lemma sub_loop_cost : forall fuel v c, c = snd (sub_loop fuel v) -> 0 <= c <= 359 * len v.
 Proof.
-  induction fuel as [|k IH]; intros v c Hb Hc Hv Hw; pose proof (len_nonneg _ v) as Hl.
+  induction fuel as [|k IH]; intros v c Hc; pose proof (len_nonneg _ v) as Hl.
   - cbn [sub_loop snd] in Hc. lia.
   - destruct v as [|id [|fl [|b2 [|b3 v']]]]; try (cbn [sub_loop snd] in Hc; lia).
-    cbn [sub_loop visits] in *. cbv zeta in *.
+    cbn [sub_loop] in *. cbv zeta in *.
     set (sublen := sublen_of fl b2 b3) in *.
-    assert (Hb' : bytes_ok v') by (inversion Hb as [|? ? ? Hb1]; inversion Hb1 as [|? ? ? Hb2]; inversion Hb2 as [|? ? ? Hb3]; inversion Hb3; assumption).
-    assert (Hs0 : 0 <= sublen).
-    { inversion Hb as [|? ? ? Hb1]; inversion Hb1 as [|? ? A2 Hb2]; inversion Hb2 as [|? ? A3 Hb3]; inversion Hb3 as [|? ? A4 ?]; subst.
-      unfold sublen, sublen_of, is_byte in *. destruct (is_le fl); lia. }
     rewrite !len_cons in *. pose proof (len_nonneg _ v') as Hl'.
-    rewrite shorter_spec in *.
-    destruct (Z.ltb_spec (len v') sublen) as [L|L]; [cbn [snd] in Hc; lia|].
-    cbn [existsb] in Hv, Hw. apply orb_false_iff in Hv as [Hv1 Hv2]. apply orb_false_iff in Hw as [Hw1 Hw2].
-    pose proof (parse_sub_cost id fl sublen v' _ Hb' ltac:(lia) eq_refl Hv1 Hw1) as PC. unfold consumed_of in PC.
-    destruct (parse_sub id fl sublen v') as [[sm|e|x] c0]; cbn [fst snd] in *.
-    + set (consumed := if (sublen =? 0) && is_data sm then len v' else sublen) in *.
-      assert (Hcn : 0 <= consumed <= len v') by (unfold consumed; destruct ((sublen =? 0) && is_data sm); lia).
-      specialize (IH (skipn (Z.to_nat consumed) v') _ ltac:(apply bytes_ok_skipn; exact Hb') eq_refl Hv2 Hw2).
-      rewrite len_skipn in IH.
-      destruct (sub_loop k (skipn (Z.to_nat consumed) v')) as [[l'|e|x] c']; cbn [snd] in *;
-        unfold SUB_SIZE in *; unfold len in *; lia.
-    + specialize (IH (skipn (Z.to_nat sublen) v') _ ltac:(apply bytes_ok_skipn; exact Hb') eq_refl Hv2 Hw2).
-      rewrite len_skipn in IH.
-      destruct (sub_loop k (skipn (Z.to_nat sublen) v')) as [r c']; cbn [snd] in *. unfold len in *; lia.
+    destruct (shorter v' sublen); [cbn [snd] in Hc; lia|].
+    set (n := Z.to_nat (body_len_of id sublen v')) in *.
+    pose proof (parse_sub_cost id fl sublen (firstn n v') _ eq_refl) as PC.
+    pose proof (len_firstn_skipn n v') as Hsplit. pose proof (len_nonneg _ (firstn n v')).
+    specialize (IH (skipn n v') _ eq_refl).
+    destruct (parse_sub id fl sublen (firstn n v')) as [[sm|e|x] c0]; cbn [fst snd] in *.
+    + destruct (sub_loop k (skipn n v')) as [[l'|e|x] c']; cbn [snd] in *; unfold SUB_SIZE in *; lia.
+    + destruct (sub_loop k (skipn n v')) as [r c']; cbn [snd] in *. lia.
     + lia.
 Qed.
 
-(* bytes copied + loop iterations + bytes allocated, for every byte string outside the
-   INFO_REPLY over-read and DATA rescan classes *)
-Theorem message_cost_linear : forall v, bytes_ok v ->
-  C07_known_overread v = false -> C07_known_rescan v = false ->
-  0 <= message_cost v <= COST_C * len v + COST_K.
+(* bytes copied + loop iterations + bytes allocated, for every input *)
+Theorem message_cost_linear : forall v, 0 <= message_cost v <= COST_C * len v + COST_K.
 Proof.
-  intros v Hb Ho Hr. unfold message_cost, parse_message_cost. unfold C07_known_overread, C07_known_rescan, message_visits in *.
+  intros v. unfold message_cost, parse_message_cost.
   pose proof (len_nonneg _ v) as Hl. unfold COST_C, COST_K.
   destruct (shorter v 20); [cbn [snd]; lia|].
   destruct (negb (list_eqb (firstn 4 v) RTPS_MAGIC)); [cbn [snd]; lia|].
-  pose proof (sub_loop_cost MAX_SUBMESSAGES (skipn 20 v) _ ltac:(apply bytes_ok_skipn; exact Hb) eq_refl Ho Hr) as SC.
+  pose proof (sub_loop_cost MAX_SUBMESSAGES (skipn 20 v) _ eq_refl) as SC.
   pose proof (len_skipn_le _ 20%nat v).
   destruct (sub_loop MAX_SUBMESSAGES (skipn 20 v)) as [[l|e|x] c]; cbn [snd] in *; lia.
 Qed.
